@@ -376,6 +376,11 @@ int main(){
             tagCells(*cs.tree);
             Geom::original() = &cs.positions;
         }
+        else if(op == "rebuild"){
+            // TbfTree::rebuild() with nothing moved: must give the tree back (it has its own copy of the grouping code)
+            cs.tree->rebuild();
+            tagCells(*cs.tree);
+        }
         else if(op == "dump" && ts.size() > 1 && ts[1] == "structure"){
             dumpStructure(*cs.tree);
         }
